@@ -96,6 +96,7 @@ func cmdCheck(args []string) {
 	t0 := time.Now()
 	w := mustWorld(*repo, filepath.Join(*verif, "specs"))
 	w.onlyProp = cfg.ID
+	w.deadEdges = *tier == "thorough" // vacuity diagnostic: list the CFG edges that are infeasible under all assumptions
 	// per-query limits: generous, because a limit only matters for the few slow queries and a loaded machine must not
 	// turn a proof into an alarm
 	timeout := 40
@@ -500,8 +501,10 @@ func cmdCheck(args []string) {
 	hk, ht := 0, 0
 	nContract := 0
 	skippedTotal := 0
+	var deadEdges []string
 	for _, nm := range names {
 		skippedTotal += results[nm].Skipped
+		deadEdges = append(deadEdges, results[nm].DeadEdges...)
 	}
 	if skippedTotal > 0 {
 		assumptions[fmt.Sprintf("%d contract clauses of the functions above are tagged for other properties only: here they are hypotheses (assumed after their program point); each is an obligation of the check of every property it is tagged with", skippedTotal)] = true
@@ -592,6 +595,11 @@ func cmdCheck(args []string) {
 		"dataflow_obligations": len(dfObls),
 		"transparent_helpers_checked_at_call_sites": transparent,
 		"reachable_but_outside_claimed_scope": outOfScope,
+	}
+	if w.deadEdges {
+		sort.Strings(deadEdges)
+		vac["infeasible_cfg_edges_under_all_assumptions"] = deadEdges
+		vac["infeasible_cfg_edges_note"] = "thorough tier: every CFG edge of every verified function was tested for reachability under all collected assumptions; the listed edges are dead (errors excluded by assumed dependency contracts, shadowed switch cases, constant flags) - an unexpected entry here means an over-strong assumption"
 	}
 	if sv.Cross {
 		cov["cross_checked_by_second_solver"] = discharged - notCross
